@@ -1124,4 +1124,9 @@ void simk_init(unsigned seed)
 	sigaction(SIGILL, &sa, NULL);
 	sigaction(SIGABRT, &sa, NULL);
 	sigaction(SIGALRM, &sa, NULL);
+	/* the harness itself writes to pipes whose reader may be gone; the library's own
+	 * signal(SIGPIPE, SIG_IGN) only reaches the simulated disposition table */
+	memset(&sa, 0, sizeof sa);
+	sa.sa_handler = SIG_IGN;
+	sigaction(SIGPIPE, &sa, NULL);
 }
